@@ -93,6 +93,12 @@ def expected(ld):
     pr = ld.prog
     f = own_func(ld)
     own = S.signature(f)
+    if pr.route == 'wrapssig':
+        # the def's own parameter list, read from a bare copy of the function (no __wrapped__, no copied __signature__)
+        import types
+        bare = types.FunctionType(f.__code__, f.__globals__, f.__name__, f.__defaults__, f.__closure__)
+        bare.__kwdefaults__ = f.__kwdefaults__
+        own = S.signature(bare)
     pl = plain(ld)
     decls = []
     for j, cs in enumerate(pr.calls):
@@ -110,6 +116,8 @@ def expected(ld):
             sigs = []
             for j, cs, uva, uvk, hva, hvk in order:
                 csig = sigtools.signature(ld.callees[j])
+                if pr.route == 'kpartial':
+                    csig = S.mask(S.forwards(S.signature(ld.module.KAPPLY), csig), 1)
                 if pr.route == 'helper':
                     # what the shared helper forwards to once it has been handed this callee
                     csig = S.mask(S.forwards(S.signature(ld.module.APPLY), csig), 1)
